@@ -2,7 +2,7 @@
 (* C2S judge for C14.  Record: [id, vendor, events (Seq of "start"|"emit"|"error"|"end"), raised (the generator run raised), aclError
    (_run_partial_generator with use_acl raised for the ACL), policyLines (flattened policy output, word sequences), defLines (outputs of
    the list generators), recLines (lines as recorded at generation time: ind = block depth, w = words), textLines (the output text lexed:
-   ind = leading blanks / indent unit, w = words)]                                                                                        *)
+   ind = leading blanks / indent unit, w = words), headers (the policy entry header lines of the output)]                                                                                        *)
 EXTENDS Rpl, Offside, TLC, Json, IOUtils
 Recs == ndJsonDeserialize(IOEnv.TRACE_FILE)
 VARIABLE i
@@ -17,6 +17,10 @@ Verdict(r) ==
      ELSE IF r.listError THEN "list-generator-raised"
      ELSE IF LET a == P(AsL(r.recLines), {}) b == P(AsL(r.textLines), {}) IN a.err \/ b.err \/ a.tree # b.tree THEN "output-nesting-differs-from-generated-nesting"
      ELSE IF ~(refs \subseteq defs) THEN "referenced-list-not-defined"
+     \* FRR keys a route-map entry by its header line (name, result, number): the cumulus back-end treats two statements under one number as a
+     \* construct it cannot express -- it must be refused, not emitted twice (the huawei / arista back-ends make no such claim: observation)
+     ELSE IF r.vendor = "cumulus" /\ \E a, b \in DOMAIN r.headers : a # b /\ r.headers[a][2] = r.headers[b][2] /\ r.headers[a][4] = r.headers[b][4]
+          THEN "policy-entry-emitted-twice"
      ELSE "ok"
 Init == i = 0
 Next == /\ i < Len(Recs) /\ i' = i + 1
